@@ -14,6 +14,7 @@ import (
 	"sync"
 	"testing"
 	"testing/synctest"
+	"time"
 
 	"github.com/formancehq/ledger/internal/engine/command"
 	"github.com/formancehq/ledger/verifharness/evid"
@@ -495,7 +496,9 @@ func c15GenActions(t *rapid.T) []c15Action {
 		}
 		if k != "release" && k != "cancel" {
 			a.Read, a.Write = set("read"), set("write")
-			if len(a.Read)+len(a.Write) == 0 {
+			if len(a.Read)+len(a.Write) == 0 && rapid.Bool().Draw(t, "notEmpty") {
+				// (a request naming no account at all stays as it is half of the time: a transaction that only
+				// touches @world asks for exactly that)
 				a.Write = []string{rapid.SampledFrom(accs).Draw(t, "w1")}
 			}
 		}
@@ -506,7 +509,7 @@ func c15GenActions(t *rapid.T) []c15Action {
 
 func TestC15(t *testing.T) {
 	c := evid.New("C15")
-	c.Rule = "action lists of 3-24 steps over accounts {a,b,c}: request(read set, write set; overlapping and duplicate entries allowed), release(a holder), cancel(a waiter), precancelled request, cancel-queued (cancel a queued request before it reaches its wait), grant-race (hold a queued request in front of its wait, optionally queue a second request with the same sets behind it, release its blockers so that it is granted, cancel it, let it go: both outcomes ready), enqueue-race (hold a request between its failed attempt and its queueing, release its blockers meanwhile, let it queue). Each list is executed 6 times on a fresh locker inside a synctest bubble (Go's select is random when both outcomes are ready). After every step: exclusion among Lock calls that have returned, no request left waiting that no holder blocks, cancelled requests return, errors only for cancelled requests; at the end: drain, nobody waits, and a probe for all accounts on an already-cancelled context is granted (only possible when nothing is left locked). Non-trivial = a list with a queued request and a cancellation, or a grant-race; distinct by action list."
+	c.Rule = "action lists of 3-24 steps over accounts {a,b,c}: request(read set, write set; overlapping and duplicate entries allowed, both sets may be empty), release(a holder), cancel(a waiter), precancelled request, cancel-queued (cancel a queued request before it reaches its wait), grant-race (hold a queued request in front of its wait, optionally queue a second request with the same sets behind it, release its blockers so that it is granted, cancel it, let it go: both outcomes ready), enqueue-race (hold a request between its failed attempt and its queueing, release its blockers meanwhile, let it queue). Each list is executed 6 times on a fresh locker inside a synctest bubble (Go's select is random when both outcomes are ready). After every step: exclusion among Lock calls that have returned, no request left waiting that no holder blocks, cancelled requests return, errors only for cancelled requests; at the end: drain, nobody waits, and a probe for all accounts on an already-cancelled context is granted (only possible when nothing is left locked). Non-trivial = a list with a queued request and a cancellation, or a grant-race; distinct by action list."
 	c.Assumptions = []string{"state is observed from outside (returned Lock calls); the locker's maps are never read", "the verifhook point lock.queued (between queueing and the select) is the only place where the harness delays the locker"}
 	hookctx.Install()
 	runProp(t, c, func(rt *rapid.T) {
@@ -519,9 +522,17 @@ func TestC15(t *testing.T) {
 		var last *c15Run
 		repeats := 6
 		for i := 0; i < repeats && sig == ""; i++ {
-			synctest.Test(t, func(*testing.T) {
-				last, sig, msg = c15Execute(actions)
+			// (a lock manager whose own mutex is left locked blocks goroutines in a way the bubble cannot see:
+			// a run that does not come back within 30 s of real time -- it takes milliseconds -- is a hang)
+			finished := c12Timed(30*time.Second, func() {
+				synctest.Test(t, func(*testing.T) {
+					last, sig, msg = c15Execute(actions)
+				})
 			})
+			if !finished {
+				last = &c15Run{log: []string{"the run did not come back"}}
+				sig, msg = "C15/manager-hang", fmt.Sprintf("the lock manager stopped answering during %d actions: a request that was granted or abandoned left the manager itself locked", len(actions))
+			}
 		}
 		labels := []string{}
 		if last.queued > 0 {
